@@ -4,7 +4,7 @@
 #include "world.hpp"
 using namespace vf;
 
-struct ICase { World w; std::vector<std::string> A; bool lastAFlushed = false; std::string B; };
+struct ICase { World w; std::vector<std::string> A; bool lastAFlushed = false; std::string B; bool decoy = false; };
 
 static ICase decode(Src &s) {
     ICase c;
@@ -21,6 +21,7 @@ static ICase decode(Src &s) {
     }
     mo.terminate = true;
     c.B = genMessage(s, c.w, mo);
+    c.decoy = s.prob(1, 4);      // a second instrument is fed the same bytes first (fixture.hpp)
     return c;
 }
 static std::string describe(const ICase &c) {
@@ -35,7 +36,8 @@ static std::string describe(const ICase &c) {
 static std::vector<std::string> traceOfB(const ICase &c, bool withA, std::string *inv, bool *aInteresting) {
     size_t need = c.B.size();
     for (auto &a : c.A) need = std::max(need, a.size());
-    Inst I(worldCfg(c.w, need + 8, 128));
+    InstCfg k9 = worldCfg(c.w, need + 8, 128); k9.decoy = c.decoy;
+    Inst I(k9);
     if (withA) {
         for (size_t i = 0; i < c.A.size(); i++) {
             I.input(c.A[i]);
